@@ -226,12 +226,15 @@ CHECKS = {
          "window holds an available item outside the window, so later ends can only shrink) and its panic sites (scope "
          "arithmetic, `before - remaining`) are unreachable; C04_adjacent_command_total: the window of an adjacent subcommand and "
          "its one retry stay inside the ledger. "
+         "C04_error_rendering_returns (MsgOk.v), for EVERY definition of the model without any premise: the evaluator reports "
+         "only messages whose recorded positions are items of the line (mutual induction over the parser), conflict marks name "
+         "positions of the line in every reachable state, the tokenizer's ambiguity message names an item and a cluster of at "
+         "least two characters -- so Message::render (Model/Message.v) returns a document for every failure any command level "
+         "reports: no index out of range, no unwrap of None, no panicking set_scope. "
          "C04_flat_fragment_total / C04_flat_level_total: the same through the token-list interpreter. NOT theorems: adjacent "
          "groups with `any`, subcommands or nested groups as members, or without a first "
          "item (retry loop fuelled; FUEL and the panic sites are explicit outcomes compared with the implementation; one class "
-         "is a known finding, two were repaired by fix: commits), that the evaluator only reports messages whose recorded "
-         "positions are items of the line (under that premise error rendering returns: C04_error_rendering_returns_partial, "
-         "C04_missing_summary_returns_partial; the model's `None` = the library's panic, compared per run), the panic sites "
+         "is a known finding, two were repaired by fix: commits), the panic sites "
          "of completion (compared per run; one repaired), purity (by construction in Gallina; tied by re-running). "
          "Implementation side: every case under catch_unwind + watchdog; `twice` (same OptionParser, same vector) and `history` "
          "(one OptionParser: parse, completion at revisions 0/1/7/8/9 with and without an application name, html/markdown/"
